@@ -50,7 +50,10 @@ def groupings(n):
 def filter_structure(sl):
     n, nf = sl["leaves"], sl["filters"]
     shape = groupings(n)[sl["grouping"]]
-    leaves = [track.Task("leaf%d" % i, track.Operation("op%d" % i, "bulk"), clients=1 + (i % 2)) for i in range(n)]
+    in_parallel = {i for kind, idxs in shape if kind == "parallel" for i in idxs}
+    # the first sub-task of a parallel element is the one named by completed-by
+    leaves = [track.Task("leaf%d" % i, track.Operation("op%d" % i, "bulk"), clients=1 + (i % 2),
+                         completes_parent=(i in in_parallel and i == min(j for k, idxs in shape if i in idxs for j in idxs))) for i in range(n)]
     snapshot = [dict(vars(t)) for t in leaves]
     schedule = []
     for kind, idxs in shape:
@@ -101,7 +104,7 @@ def filter_structure(sl):
 
 
 TAGS = [None, "a", "ab", ["a", "b"], ["ab"], []]
-FILTERS = ["leaf0", "leaf1", "type:bulk", "type:search", "tag:a", "tag:b", "tag:ab", "type:MyCustomOp", "type:mycustomop", "Leaf0", "tag:A"]
+FILTERS = ["leaf0", "leaf1", "type:bulk", "type:search", "tag:a", "tag:b", "tag:ab", "type:MyCustomOp", "type:mycustomop", "Leaf0", "tag:A", "op", "op2"]
 OPTYPES = ["bulk", "search", "MyCustomOp"]  # custom runners register operation types under any name
 
 
